@@ -96,7 +96,13 @@ def one(ctx, cname, label):
         ctx.violation("C03:%s:%s:%s" % (kind, L.CONFIGS[cname].kind,
                                         vclass(label)), msg, **dict(case, **kw))
 
+    items_before = list(v) if type(v) is tuple else None
     rc = outcome(ct.validate, obj, "x", v)
+    if items_before is not None and (
+            len(v) != len(items_before)
+            or any(a is not b for a, b in zip(v, items_before))):
+        bad("input-mutated", "validation changed the caller's own tuple "
+            "from %r to %r" % (tuple(items_before), v))
     if fv is not None and has_python_validate(cname):
         rp = outcome(h.validate, obj, "x", v)
         # The statement fixes: Python accepts <=> compiled accepts (equal
@@ -182,7 +188,13 @@ def item_paths(ctx, cname, label):
     p = P()
     ctx.ev()
     ctx.tr()
-    rt = outcome(p.trait("t").validate, p, "t", (v, v))
+    pair = (v, v)
+    rt = outcome(p.trait("t").validate, p, "t", pair)
+    if pair[0] is not v or pair[1] is not v:
+        ctx.violation("C03:input-mutated:%s:%s" % (c.kind, vclass(label)),
+                      "validation of a Tuple trait changed the caller's own "
+                      "tuple to %r" % (pair,), config=cname, value=label,
+                      paths=True)
     rl = outcome(p.trait("l").validate, p, "l", [v])
     exp_t = ("ok", (alone[1], alone[1])) if alone[0] == "ok" else alone
     if alone[0] == "exc":
@@ -217,6 +229,48 @@ def relevant(cname):
         return False
 
 
+def late_mapping_cells(ctx):
+    """The caller's mapping is changed after the trait was defined: whatever
+    the trait makes of that, its compiled and its Python validator still
+    decide alike (alone and as a compound alternative)."""
+    from traits.api import Either, Map
+    for change in ("add", "remove", "replace"):
+        for compound in (False, True):
+            d = {"yes": 1, "no": 0}
+
+            class H(HasTraits):
+                x = Either(L.Int, Map(d)) if compound else Map(d)
+            if change == "add":
+                d["maybe"] = 2
+            elif change == "remove":
+                del d["no"]
+            else:
+                d.clear()
+                d.update({"on": 1})
+            obj = H()
+            ct = obj.trait("x")
+            hs = ct.handler.handlers if compound else [ct.handler]
+            mh = [h for h in hs if isinstance(h, Map)][0]
+            for v in ("yes", "no", "maybe", "on", "zzz"):
+                ctx.case({"late_mapping": change, "compound": compound,
+                          "value": v})
+                ctx.ev()
+                ctx.tr()
+                rc = outcome(ct.validate, obj, "x", v)
+                rp = outcome(mh.validate, obj, "x", v)
+                if not same(rc, rp):
+                    ctx.violation(
+                        "C03:late-mapping:%s:%s" % (
+                            change, "Either" if compound else "Map"),
+                        "mapping changed (%s) after the trait was defined; "
+                        "%r: compiled %s, Python validate %s" % (
+                            change, v, show(rc), show(rp)),
+                        late_mapping=change, compound=compound, value=v)
+                else:
+                    ctx.outcome("both-accept" if rc[0] == "ok"
+                                else "both-reject")
+
+
 def shards(tier):
     if tier == "thorough":
         L.add_triples()
@@ -229,6 +283,8 @@ def run_shard(ctx, shard, tier):
         L.add_triples()
     names = [n for n in L.NAMES if relevant(n)]
     names = names[shard["chunk"]::shard["of"]]
+    if shard["chunk"] == 0:
+        late_mapping_cells(ctx)
     for cname in names:
         c = L.CONFIGS[cname]
         ctx.state(cname)
@@ -254,7 +310,9 @@ def replay(rec):
     from mc.ctx import Ctx
     ctx = Ctx("C03", None, "quick", 0)
     c = rec["case"]
-    if c.get("paths"):
+    if c.get("late_mapping"):
+        late_mapping_cells(ctx)
+    elif c.get("paths"):
         item_paths(ctx, c["config"], c["value"])
     else:
         one(ctx, c["config"], c["value"])
